@@ -149,6 +149,11 @@ func vfMachineCanon(m *crew.Machine) string {
 	// is unspecified, so a recorder's log is compared as a multiset.
 	bs := map[string]interface{}{}
 	for k, v := range m.State.Bs {
+		if k == "lastBindings" {
+			// the diagnostic copy of the bindings a failed step started from (it holds the
+			// log in its order of arrival, which is not specified within a round)
+			continue
+		}
 		bs[k] = v
 	}
 	if lg, ok := bs["log"].([]interface{}); ok {
@@ -276,6 +281,11 @@ func runC15(c *sim.Ctx, t *testing.T) {
 				chain = m
 			}
 			ops = append(ops, vfOp{kind: "flip", mid: fid, msg: chain})
+		case k == 10 && exists[mid]:
+			// one message for the captain and for the machine it updates: the captain replaces
+			// the machine's state, then the machine itself sees the message
+			st := map[string]interface{}{"node": "start", "bs": map[string]interface{}{"log": []interface{}{map[string]interface{}{"id": []string{"resetA", "resetB"}[c.Intn(2, "statepool")]}}}}
+			ops = append(ops, vfOp{kind: "update+msg", mid: mid, msg: map[string]interface{}{"to": []interface{}{"captain", mid}, "update": map[string]interface{}{mid: map[string]interface{}{"state": st}}}})
 		case k == 9:
 			// a gauge machine and a reading for it
 			gid := "g" + mid
@@ -412,6 +422,9 @@ func runC15(c *sim.Ctx, t *testing.T) {
 			return
 		}
 		c.Count("restarts")
+		// the rebuilt crew's own reports continue the store it was built from
+		tshadow := map[string]*crew.Machine{}
+		json.Unmarshal([]byte(shadows[b]), &tshadow)
 		for i := b; i < len(ops); i++ {
 			var r *Result
 			var perr error
@@ -421,6 +434,24 @@ func runC15(c *sim.Ctx, t *testing.T) {
 			if perr != nil || r == nil {
 				c.Violate("restart:error", "the crew rebuilt at boundary %d failed at op %d: %v%s", b, i, perr, history())
 				return
+			}
+			vfFold(tshadow, r)
+			for _, mid := range vfOrdinary(twin) {
+				sm, have := tshadow[mid]
+				if !have || vfMachineCanon(sm) != vfMachineCanon(twin.Machines[mid]) {
+					c.Violate("restart:shadow:"+ops[i].kind, "the crew rebuilt from the store before op %d: after op %d (%s) its machine %s is at %s, but the store continued with its reports gives %s%s",
+						b, i, ops[i].kind, mid, vfMachineCanon(twin.Machines[mid]), vfMachineCanon(sm), history())
+					return
+				}
+			}
+			for mid := range tshadow {
+				if mid == TimersMachine || mid == CaptainMachine {
+					continue
+				}
+				if _, have := twin.Machines[mid]; !have {
+					c.Violate("restart:shadow:stale:"+ops[i].kind, "the crew rebuilt from the store before op %d: after op %d (%s) machine %s is gone from it but still in the store continued with its reports%s", b, i, ops[i].kind, mid, history())
+					return
+				}
 			}
 			got := observe(twin, r)
 			want := trace[i]
